@@ -46,6 +46,9 @@ package sessions
 //@   fresh result.0
 //@   ensures [C02] no_data_on_error: result.1 != nil ==> result.0 == nil
 //@   ensures [C02 C08] opened_under_this_cipher: result.1 == nil ==> result.0 != nil && called(@Unmarshal#1) && @Unmarshal#1 == nil && arg(@Unmarshal#1, 0) == c && arg(@Unmarshal#1, 1) == value
+// ... and the session handed back is what the cipher decoded, field for field (nothing is rewritten on the way out)
+//@   let S = result.0
+//@   ensures [C02 C08 C01] session_is_exactly_what_was_opened: result.1 == nil ==> S.Email == at(@Unmarshal#1, S.Email) && S.User == at(@Unmarshal#1, S.User) && S.AccessToken == at(@Unmarshal#1, S.AccessToken) && S.RefreshToken == at(@Unmarshal#1, S.RefreshToken) && S.ProviderSlug == at(@Unmarshal#1, S.ProviderSlug) && S.ProviderType == at(@Unmarshal#1, S.ProviderType) && S.AuthorizedUpstream == at(@Unmarshal#1, S.AuthorizedUpstream) && S.Groups == at(@Unmarshal#1, S.Groups) && S.RefreshDeadline == at(@Unmarshal#1, S.RefreshDeadline) && S.LifetimeDeadline == at(@Unmarshal#1, S.LifetimeDeadline) && S.ValidDeadline == at(@Unmarshal#1, S.ValidDeadline) && S.GracePeriodStart == at(@Unmarshal#1, S.GracePeriodStart)
 
 // ---- C18: cookie attributes -----------------------------------------------------------------------------------
 //@ func (s *CookieStore) makeCookie(req *http.Request, name string, value string, expiration time.Duration, now time.Time) *http.Cookie
